@@ -838,6 +838,15 @@ def race_cases(thorough, rng):
                 for batches, tags in explore(kind, has_delay, addrs, [], rng, 2, 2, crash=False):
                     yield _mk_case(kind, has_delay, addrs, [], batches,
                                    tags + ["all-suspend", "errno-kinds", f"errno{ek}"])
+    # (1d) three attempts in flight, all three resolved in ONE loop iteration, in every order and with every mix of
+    #      success / OSError / non-OSError exception: winner + late finisher + an attempt that ends the race abnormally
+    for fams in ((A6, A4, A6),):
+        addrs = [[f, 1, 0] for f in fams]
+        for perm in itertools.permutations(range(3)):
+            for kinds in itertools.product((0, 1, 2), repeat=3):
+                batches = [[[3, 0]], [[3, 0]], [[kinds[k], perm[k]] for k in range(3)], [[4, 0]]]
+                yield _mk_case(1, 1, addrs, [], batches, ["triple", "all-suspend"] +
+                               (["triple-win-late-crash"] if sorted(kinds) == [0, 0, 2] else []))
     # (2) scripted attempts (socket() fails, connect returns/raises at once), local addresses, up to 4 addresses
     nconf = 400 if thorough else 90
     for _ in range(nconf):
